@@ -12,16 +12,16 @@ import (
 
 // Recovery (C15): everything Model/Retry.lean and Props/C15.lean take from the source.
 //
-//   errors.go    the ordered decision table of NewDatabaseErrorWithContext
-//                (needles -> constructor -> AppError type), ErrorType constant values,
-//                AppError.Unwrap returning Cause
-//   recovery.go  DefaultRetryConfig values; the shape of the retry loop; which predicates
-//                shouldRetry uses (errors.Is follows Unwrap, os.IsNotExist does not) and which
-//                AppError types stop retrying; calculateDelay's formula and cap; the order of
-//                the fallback ladder; the command strings of the embedded / minimal databases
-//   loader.go    LoadDatabase wraps both failure sites with NewDatabaseErrorWithContext;
-//                LoadDatabaseWithPersonal's three tolerated forms of a missing notebook
-//   search.go    the CLI uses DefaultRetryConfig() and LoadDatabaseWithFallback
+//	errors.go    the ordered decision table of NewDatabaseErrorWithContext
+//	             (needles -> constructor -> AppError type), ErrorType constant values,
+//	             AppError.Unwrap returning Cause
+//	recovery.go  DefaultRetryConfig values; the shape of the retry loop; which predicates
+//	             shouldRetry uses (errors.Is follows Unwrap, os.IsNotExist does not) and which
+//	             AppError types stop retrying; calculateDelay's formula and cap; the order of
+//	             the fallback ladder; the command strings of the embedded / minimal databases
+//	loader.go    LoadDatabase wraps both failure sites with NewDatabaseErrorWithContext;
+//	             LoadDatabaseWithPersonal's three tolerated forms of a missing notebook
+//	search.go    the CLI uses DefaultRetryConfig() and LoadDatabaseWithFallback
 //
 // Every shape relied upon is asserted; an unrecognised shape breaks the tie (site "recovery:*").
 func init() { register("recovery", xRecovery) }
